@@ -168,7 +168,9 @@ func (commander *Commander) CreateTransaction(ctx context.Context, parameters Pa
 		return nil, err
 	}
 
-	commander.monitor.CommittedTransactions(ctx, *log.Data.(ledger.NewTransactionLogPayload).Transaction, log.Data.(ledger.NewTransactionLogPayload).AccountMetadata)
+	if !parameters.DryRun {
+		commander.monitor.CommittedTransactions(ctx, *log.Data.(ledger.NewTransactionLogPayload).Transaction, log.Data.(ledger.NewTransactionLogPayload).AccountMetadata)
+	}
 
 	return log.Data.(ledger.NewTransactionLogPayload).Transaction, nil
 }
@@ -209,7 +211,9 @@ func (commander *Commander) SaveMeta(ctx context.Context, parameters Parameters,
 		return err
 	}
 
-	commander.monitor.SavedMetadata(ctx, targetType, fmt.Sprint(targetID), m)
+	if !parameters.DryRun {
+		commander.monitor.SavedMetadata(ctx, targetType, fmt.Sprint(targetID), m)
+	}
 	return nil
 }
 
@@ -246,7 +250,9 @@ func (commander *Commander) RevertTransaction(ctx context.Context, parameters Pa
 		return nil, err
 	}
 
-	commander.monitor.RevertedTransaction(ctx, transactionToRevert, log.Data.(ledger.RevertedTransactionLogPayload).RevertTransaction)
+	if !parameters.DryRun {
+		commander.monitor.RevertedTransaction(ctx, transactionToRevert, log.Data.(ledger.RevertedTransactionLogPayload).RevertTransaction)
+	}
 
 	return log.Data.(ledger.RevertedTransactionLogPayload).RevertTransaction, nil
 }
@@ -317,7 +323,9 @@ func (commander *Commander) DeleteMetadata(ctx context.Context, parameters Param
 		return err
 	}
 
-	commander.monitor.DeletedMetadata(ctx, targetType, targetID, key)
+	if !parameters.DryRun {
+		commander.monitor.DeletedMetadata(ctx, targetType, targetID, key)
+	}
 
 	return nil
 }
